@@ -41,7 +41,7 @@ def check(ctx):
             ds = show(d, 10 ** 5)
             i_flat = q.param_index(fn, lambda t: t.endswith("FlatDerivesRegistry"))
             i_ty = q.param_index(fn, lambda t: t.startswith("&scale_info::Type<"))
-            ok = ds.startswith("mut[FlatDerivesRegistry::resolve_derives_for_type(P%d,P%d)?;TypeGenerator::add_as_compact_derive(P0,&self) if mut[false;=true if P%d.type_def~TypeDef::Composite($)&&CompositeIRKind::could_derive_as_compact(" % (i_flat, i_ty, i_ty))
+            ok = ds.startswith("mut[FlatDerivesRegistry::resolve_derives_for_type(P%d,P%d)?;TypeGenerator::add_as_compact_derive(P0,&self) if (let TypeDef::Composite($)=P%d.type_def&&CompositeIRKind::could_derive_as_compact(" % (i_flat, i_ty, i_ty))
             ctx.expect(ok, "C08.2", "ir-derives", site(tirs[0]), "item derives = resolved derives of this type (+ CompactAs iff the struct's kind could derive it; never for enums)",
                        "TypeIR.derives is `%s`" % ds[:400])
         else:
@@ -139,9 +139,13 @@ def flatten(ctx):
            "{derives::collect_type_ids(%s.id,P%d,IDS);for(IDS){{Derives::extend_from(Entry::or_default(HashMap::entry(ADD,elem(IDS))),%s@v1::Some.0)}}}") % (E, RD, E, i_reg, RD)
     for lid, sym in syms.items():
         if sym == "IDS":
-            it = show(N.local_term(lid))
-            expect_term(ctx, "C08.4", "flatten/reachable-set", fn["sp"], it, "mut[HashSet::new();derives::collect_type_ids(%s.id,P%d,&self) if for(%s)]" % (E, i_reg, REG),
-                        "the id set is fresh per entry and filled by the reachability traversal started at THIS entry's id")
+            it = N.local_term(lid)
+            ok = it[0] == "mut" and show(it[2]) == "HashSet::new()" and len(it[3]) == 1 and it[3][0][0] == "mutarg" \
+                and it[3][0][1] == "derives::collect_type_ids" and [show(a) for a in it[3][0][2]] == ["%s.id" % E, "P%d" % i_reg, "&self"] \
+                and [g for g in it[3][0][3] if g.startswith("for(")] == ["for(%s)" % REG]
+            ctx.expect(ok, "C08.4", "flatten/reachable-set", fn["sp"],
+                       "the id set is fresh per entry and filled by the reachability traversal started at THIS entry's id",
+                       "the id set is built as " + show(it)[:600])
     expect_term(ctx, "C08.4", "flatten/per-entry", site(entry[0][0]), body_t, exp,
                 "for every entry with a path: if recursive derives are registered for that path, collect the ids reachable from THIS entry and give each of them those derives")
     # which map is consulted with which key
@@ -179,8 +183,8 @@ def compact_as(ctx):
     ctx.expect(sorted(c for c, _ in callers) == ["TypeGenerator::create_type_ir", "TypeGenerator::upcast_composite"], "C08.6", "compact-as/call-sites", "",
                "called from the two IR construction sites only", "add_as_compact_derive called from %s" % callers)
     expect_fn(ctx, "C08.7", "compact-as/eligibility", "CompositeIRKind::could_derive_as_compact",
-              "TypePath::is_uint_up_to_u128(match(P0){CompositeIRKind::NoFields=>return false;CompositeIRKind::Named($)=>early{(Vec::len(P0@CompositeIRKind::Named.0)!='1')=>return false}P0@CompositeIRKind::Named.0['0'].1;"
-              "CompositeIRKind::Unnamed($)=>early{(Vec::len(P0@CompositeIRKind::Unnamed.0)!='1')=>return false}P0@CompositeIRKind::Unnamed.0['0']}.type_path)",
+              "TypePath::is_uint_up_to_u128(match(P0){CompositeIRKind::NoFields=>return false;CompositeIRKind::Named($)=>early{(slice::len(P0@CompositeIRKind::Named.0)!='1')=>return false}P0@CompositeIRKind::Named.0['0'].1;"
+              "CompositeIRKind::Unnamed($)=>early{(slice::len(P0@CompositeIRKind::Unnamed.0)!='1')=>return false}P0@CompositeIRKind::Unnamed.0['0']}.type_path)",
               "eligible iff exactly one field (named or unnamed) and that field's type is an unsigned integer up to 128 bits", "scale_typegen")
     fn = q.fn1(P, "TypePath::is_uint_up_to_u128", "scale_typegen")
     if fn is not None:
